@@ -19,7 +19,7 @@ ASSUMPTIONS = [
     "'below a metadata element' = proper descendants of a node named metadata; the metadata node itself is judged",
     "replacement of metadata content keeps the class 'at most one child' / 'more than one child'",
 ]
-REQUIRED = ["vocabulary_probes", "trees_with_more_than_5000_errors", "trees_with_repeated_id_strings", "trees", "trees_ge2_invalid_nodes", "trees_invalid_below_metadata", "metamorphic_reruns", "trace_checked",
+REQUIRED = ["second_walks_into_the_same_list", "vocabulary_probes", "trees_with_more_than_5000_errors", "trees_with_repeated_id_strings", "trees", "trees_ge2_invalid_nodes", "trees_invalid_below_metadata", "metamorphic_reruns", "trace_checked",
             "failfast_ok_trees", "failfast_failing_trees"]
 EXHAUSTIVE = {"quick": False, "thorough": False}
 
@@ -87,6 +87,10 @@ def judge(ctx, t, origin, log=None):
             tree_errs = []
             mvalidate.tree(t, tree_errs)
         trace = spy.calls
+        # the same tree validated once more into the SAME list (validate / look at the list / validate again, as an editor does): the
+        # second walk appends what the first one did
+        again_errs = list(tree_errs)
+        mvalidate.tree(t, again_errs)
         try:
             mvalidate.tree(t)
             tree_ok = True
@@ -115,6 +119,11 @@ def judge(ctx, t, origin, log=None):
             key = "visit-trace-differs"
         ctx.violation(key, f"validate.tree visited {[n.name for n in trace][:12]}... ({len(trace)} nodes), expected the "
                            f"{len(judged)} nodes outside metadata content in document order", wit())
+    ctx.count("second_walks_into_the_same_list")
+    if [key_of(e) for e in again_errs[len(tree_errs):]] != [key_of(e) for e in tree_errs] or \
+            not all(a is b for a, b in zip(again_errs, tree_errs)):
+        ctx.violation("second-walk-into-the-same-list-differs", f"validate.tree into a list that already holds this tree's {len(tree_errs)} errors "
+                                                                f"appended {len(again_errs) - len(tree_errs)} (or disturbed the earlier entries)", wit())
     expected = [key_of(e) for errs in per_node for e in errs]
     got = [key_of(e) for e in tree_errs]
     if got != expected:
